@@ -581,6 +581,132 @@ Proof.
   intros H. destruct (G evs _ H) as [[]|H']. exact H'.
 Qed.
 
+(* ---- concurrent confirmations under the single-flight wrapper ---- *)
+Lemma gen_is_sequential secret p now q :
+  auth_sign_out_gen mac secret now q (fun s => (revoke_ok p (q_idp q), [revoke_token p s])) = auth_sign_out mac secret p now q.
+Proof.
+  unfold auth_sign_out_gen, auth_sign_out. destruct (q_method q); try reflexivity;
+    destruct (negb (q_in_domain q)); try reflexivity;
+    destruct (negb (valid_signature mac secret (q_uri q) (q_sig q) (q_ts q) (q_parses q) now)); try reflexivity.
+Qed.
+
+Lemma gen_reaches secret now q s rv :
+  reaches_revoke mac secret now q = Some s ->
+  auth_sign_out_gen mac secret now q rv =
+  (let '(ok, sent) := rv s in
+   if ok then {| r_body := BRedirect (q_uri q); r_clears := true; r_revoked := sent |}
+   else {| r_body := BPage 500%Z (as_email s) (q_uri q) (q_sig q) (q_ts q); r_clears := false; r_revoked := sent |}).
+Proof.
+  unfold reaches_revoke, auth_sign_out_gen. destruct (q_method q); try discriminate.
+  destruct (q_cookie q) as [| |s0]; try discriminate.
+  destruct (q_in_domain q); [|discriminate]. cbn [andb negb].
+  destruct (valid_signature mac secret (q_uri q) (q_sig q) (q_ts q) (q_parses q) now); [|discriminate].
+  intros H; inversion H; subst. reflexivity.
+Qed.
+
+(* with nothing in flight a request is served exactly as in the sequential model *)
+Lemma cstep_alone secret p st now q :
+  cs_flights st = [] -> snd (cstep mac secret p st (CReq now q)) = Some (auth_sign_out mac secret p now q).
+Proof.
+  intros Hf. unfold cstep. destruct (reaches_revoke mac secret now q) as [s|] eqn:E.
+  - rewrite Hf. cbn [find_flight snd]. f_equal. rewrite <- gen_is_sequential.
+    rewrite !(gen_reaches _ _ _ s _ E). reflexivity.
+  - cbn [snd]. f_equal. rewrite <- (gen_is_sequential secret p now q).
+    unfold reaches_revoke in E. unfold auth_sign_out_gen.
+    destruct (q_method q); try reflexivity; destruct (negb (q_in_domain q)) eqn:Ed; try reflexivity;
+      destruct (negb (valid_signature mac secret (q_uri q) (q_sig q) (q_ts q) (q_parses q) now)) eqn:Ev; try reflexivity.
+    destruct (q_cookie q); try reflexivity.
+    apply negb_false_iff in Ed. apply negb_false_iff in Ev. rewrite Ed, Ev in E. discriminate.
+Qed.
+
+Lemma find_flight_some k fl f : find_flight k fl = Some f -> In f fl /\ fl_key f = k.
+Proof.
+  induction fl as [|g fl IH]; cbn [find_flight]; [discriminate|].
+  destruct (str_eqb k (fl_key g)) eqn:E.
+  - intros H; inversion H; subst. split; [left; reflexivity | symmetry; apply str_eqb_eq; exact E].
+  - intros H. destruct (IH H). split; [right; assumption | assumption].
+Qed.
+
+Lemma drop_flight_in k fl f : In f (drop_flight k fl) -> In f fl.
+Proof.
+  induction fl as [|g fl IH]; cbn [drop_flight]; [auto|].
+  destruct (str_eqb k (fl_key g)); [intros H; right; exact H|]. intros [H|H]; [left; exact H | right; auto].
+Qed.
+
+(* the sessions that may sign out concurrently: equal single-flight keys name the same IdP token *)
+Definition consistent (p : provider) (U : list asession) : Prop :=
+  forall s1 s2, In s1 U -> In s2 U -> flight_key s1 = flight_key s2 -> revoke_token p s1 = revoke_token p s2.
+Definition sessions_in (U : list asession) (evs : list cevent) : Prop :=
+  forall now q s, In (CReq now q) evs -> q_cookie q = ACSealed s -> In s U.
+
+Definition cinv (p : provider) (U : list asession) (st : cstate) : Prop :=
+  (forall s, In s (cs_cleared st) -> In (revoke_token p s) (cs_revoked st)) /\
+  (forall f, In f (cs_flights st) -> fl_ok f = true -> In (fl_token f) (cs_revoked st)) /\
+  (forall f s, In f (cs_flights st) -> In s U -> flight_key s = fl_key f -> revoke_token p s = fl_token f).
+
+Lemma reaches_sealed secret now q s : reaches_revoke mac secret now q = Some s -> q_cookie q = ACSealed s.
+Proof.
+  unfold reaches_revoke. destruct (q_method q); try discriminate. destruct (q_cookie q); try discriminate.
+  destruct (_ && _); [|discriminate]. intros H; inversion H; reflexivity.
+Qed.
+
+Lemma cinv_step secret p U st e :
+  consistent p U -> (forall now q s, e = CReq now q -> q_cookie q = ACSealed s -> In s U) ->
+  cinv p U st -> cinv p U (fst (cstep mac secret p st e)).
+Proof.
+  intros Hcons Hin [I1 [I2 I3]]. destruct e as [now q|k]; cbn [cstep].
+  2:{ cbn [fst cs_cleared cs_revoked cs_flights]. split; [exact I1|]. split.
+      - intros f Hf. apply I2. eapply drop_flight_in; eauto.
+      - intros f s Hf. apply I3. eapply drop_flight_in; eauto. }
+  destruct (reaches_revoke mac secret now q) as [s|] eqn:E; [|cbn [fst]; repeat split; auto].
+  pose proof (Hin now q s eq_refl (reaches_sealed _ _ _ _ E)) as HsU.
+  destruct (find_flight (flight_key s) (cs_flights st)) as [f|] eqn:Ef.
+  - destruct (find_flight_some _ _ _ Ef) as [Hf Hk].
+    rewrite (gen_reaches secret now q s _ E). cbn [fst cs_cleared cs_revoked cs_flights].
+    split; [|split; [exact I2 | exact I3]].
+    destruct (fl_ok f) eqn:Eok; cbn [r_clears]; [|exact I1].
+    intros s' [<-|H]; [|apply I1; exact H].
+    rewrite (I3 f s Hf HsU (eq_sym Hk)). apply I2; assumption.
+  - rewrite (gen_reaches secret now q s _ E). cbn [fst cs_cleared cs_revoked cs_flights].
+    destruct (revoke_ok p (q_idp q)) eqn:Eok; cbn [r_clears].
+    + split; [|split].
+      * intros s' [<-|H]; [left; reflexivity | right; apply I1; exact H].
+      * intros f [<-|Hf] Hok; cbn [fl_token]; [left; reflexivity | right; apply I2; assumption].
+      * intros f s' [<-|Hf] Hs' Hk; cbn [fl_token fl_key] in *; [apply Hcons; assumption | apply I3; assumption].
+    + split; [exact I1|]. split.
+      * intros f [<-|Hf] Hok; cbn [fl_ok] in *; [discriminate | apply I2; assumption].
+      * intros f s' [<-|Hf] Hs' Hk; cbn [fl_token fl_key] in *; [apply Hcons; assumption | apply I3; assumption].
+Qed.
+
+(* for EVERY interleaving of confirmations and flight completions: whoever was told "signed out"
+   has their own token revoked at the IdP — provided equal single-flight keys name equal tokens *)
+Theorem conc_cleared_implies_revoked secret p U evs :
+  consistent p U -> sessions_in U evs ->
+  forall s, In s (cs_cleared (fst (crun mac secret p evs))) -> In (revoke_token p s) (cs_revoked (fst (crun mac secret p evs))).
+Proof.
+  intros Hcons Hin. unfold crun.
+  assert (G : forall evs st, sessions_in U evs -> cinv p U st -> cinv p U (fst (crun_from mac secret p st evs))).
+  { clear evs Hin. induction evs as [|e evs IH]; intros st Hin Hst; cbn [crun_from]; [exact Hst|].
+    destruct (cstep mac secret p st e) as [st1 o] eqn:E1.
+    destruct (crun_from mac secret p st1 evs) as [st2 rs] eqn:E2. cbn [fst].
+    replace st2 with (fst (crun_from mac secret p st1 evs)) by (rewrite E2; reflexivity).
+    apply IH.
+    - intros now q s H. apply (Hin now q s). right; exact H.
+    - replace st1 with (fst (cstep mac secret p st e)) by (rewrite E1; reflexivity).
+      apply cinv_step; [exact Hcons | | exact Hst]. intros now q s -> Hc. apply (Hin now q s); [left; reflexivity | exact Hc]. }
+  apply (G evs cinit Hin). split; [intros ? []|]. split; [intros ? []|]. intros ? ? [].
+Qed.
+
+(* Google revokes the access token, which IS the key: no hypothesis needed *)
+Corollary conc_cleared_implies_revoked_google secret evs s :
+  In s (cs_cleared (fst (crun mac secret PGoogle evs))) -> In (revoke_token PGoogle s) (cs_revoked (fst (crun mac secret PGoogle evs))).
+Proof.
+  set (U := flat_map (fun e => match e with CReq _ q => match q_cookie q with ACSealed s => [s] | _ => [] end | _ => [] end) evs).
+  apply (conc_cleared_implies_revoked secret PGoogle U evs).
+  - intros s1 s2 _ _ H. exact H.
+  - intros now q s0 Hin Hc. unfold U. apply in_flat_map. exists (CReq now q). split; [exact Hin|]. rewrite Hc. left; reflexivity.
+Qed.
+
 End Mac.
 
 (* hypotheses are satisfiable: a toy MAC with 32-byte output *)
@@ -617,3 +743,20 @@ Example signout_history_example :
   r_body (auth_sign_out toy_mac secret PGoogle 1700000100%Z (follow l MPost true (ACSealed s) (IdpSt 503%Z BNotJSON)))
     = BPage 500%Z [97;64;98] (form_get k_redirect_uri (l_params l)) (form_get k_sig (l_params l)) (form_get k_ts (l_params l)).
 Proof. vm_compute. repeat split. Qed.
+
+(* Okta revokes the REFRESH token but the flight is keyed by the ACCESS token: two sessions with one
+   access token and different refresh tokens, confirming concurrently — the second is told "signed out"
+   (cookie cleared, redirected) although no revoke call carried its token.  Finding C19-K1. *)
+Theorem conc_refuted_okta :
+  exists secret evs s,
+    In s (cs_cleared (fst (crun toy_mac secret POkta evs))) /\
+    ~ In (revoke_token POkta s) (cs_revoked (fst (crun toy_mac secret POkta evs))).
+Proof.
+  set (host := [97;112;112;46;116;101;115;116]). set (secret := [115;51;99;114;51;116]).
+  set (l := p_loc (proxy_sign_out toy_mac [] secret true true host 1700000000%Z)).
+  set (s1 := {| as_email := [97]; as_access := [97;116]; as_refresh := [114;49] |}).
+  set (s2 := {| as_email := [98]; as_access := [97;116]; as_refresh := [114;50] |}).
+  exists secret, [CReq 1700000100%Z (follow l MPost true (ACSealed s1) (IdpSt 200%Z BNotJSON));
+                  CReq 1700000100%Z (follow l MPost true (ACSealed s2) (IdpSt 200%Z BNotJSON))], s2.
+  vm_compute. split; [left; reflexivity|]. intros [H|[]]. discriminate.
+Qed.
